@@ -150,14 +150,20 @@ func EncV4(ip *layers.IPv4) string {
 // boundary defects (short header, bad UDP length, TCP data offset below 5 / beyond the data,
 // TCP options: NOP, end-of-list, generic TLVs with good and bad lengths).  Never emits the
 // multipath-TCP option kind 30.
-func L4(r *vlib.Rand, kind int, sport, dport uint16) []byte {
+func L4(r *vlib.Rand, kind int, sport, dport uint16, defects bool) []byte {
+	dfl := func(n int) int { // n-way choice whose low values are the defects
+		if !defects {
+			return n - 1
+		}
+		return r.Intn(n)
+	}
 	switch kind {
 	case 0:
 		n := 8 + r.Intn(6)
 		b := r.Bytes(n)
 		binary.BigEndian.PutUint16(b[0:], sport)
 		binary.BigEndian.PutUint16(b[2:], dport)
-		switch r.Intn(10) {
+		switch dfl(10) {
 		case 0:
 			binary.BigEndian.PutUint16(b[4:], uint16(r.Intn(8))) // 0 = jumbo (ok), 1..7 bad
 		case 1:
@@ -197,7 +203,7 @@ func L4(r *vlib.Rand, kind int, sport, dport uint16) []byte {
 				o[i] = k
 				if i+1 < len(o) {
 					l := r.Range(2, len(o)-i)
-					if r.Chance(15) {
+					if defects && r.Chance(15) {
 						l = r.Intn(len(o) + 3) // possibly 0, 1 or too long
 					}
 					o[i+1] = byte(l)
@@ -213,7 +219,7 @@ func L4(r *vlib.Rand, kind int, sport, dport uint16) []byte {
 				}
 			}
 		}
-		switch r.Intn(12) {
+		switch dfl(12) {
 		case 0:
 			b[12] = byte(r.Intn(5)) << 4
 		case 1:
